@@ -53,7 +53,8 @@ def prepare(tier, seed, scratch):
 
 def shards(tier, seed):
     per = 60 if tier == "quick" else 1500
-    return [{"seed": seed * 3571 + s * 17 + 7, "n": per, "pure_python": (s % 8 == 7), "timeout_s": 3300} for s in range(16)]
+    return [{"seed": seed * 3571 + s * 17 + 7, "n": per, "pure_python": (s % 8 == 7), "timeout_s": 3300, "shard_index": s}
+            for s in range(16)]
 
 
 def run_shard(params):
@@ -68,10 +69,21 @@ def run_shard(params):
     cnt = res["counters"]
     hits, modes = set(), set()
     seen = set()
+    todo = []
     for i in range(params["n"]):
         P = txn_gen.c07_program(rng, params.get("tier", "quick"))
         if params.get("force"):
             P.update(params["force"])
+        todo.append(P)
+    if params.get("shard_index", params.get("shard")) == 0:
+        import json as _json
+        import os as _os
+        with open(_os.path.join(_os.path.dirname(_os.path.abspath(__file__)), "txn_pinned.json")) as f:
+            for ent in _json.load(f):
+                if "C07" in ent["props"]:
+                    todo.append(dict(ent["params"]))
+                    cnt["pinned_histories"] = cnt.get("pinned_histories", 0) + 1
+    for P in todo:
         H = txn_sim.run_history(P)
         res["evaluations"] += 1
         if H["errors"] or H["sim_errors"]:
